@@ -365,12 +365,19 @@ func C05_RunContext() {
 	}
 	polls := 0
 	if ctxkind == 2 {
-		// the engine's goroutines are cooperative: after two VM polls the
-		// goroutine waiting on the cancelled context gets its turn (natively the
-		// Go scheduler does this)
+		// the engine's goroutines are cooperative: at the h-th VM poll (and every
+		// second poll after it) the goroutine waiting on the cancelled context
+		// gets its turn (natively the Go scheduler does this). For programs that
+		// never terminate on their own h is a choice: the cancellation is
+		// noticed before the script starts, at its first calls, or once it is
+		// inside its endless loop / recursion
+		h := 2
+		if endless {
+			h = 1 + vf.Choice("handoff", 5)
+		}
 		vf.SetHook("poll", func() {
 			polls++
-			if polls%2 == 0 {
+			if polls >= h && (polls-h)%2 == 0 {
 				vf.Handoff()
 			}
 		})
